@@ -168,7 +168,7 @@ def run(path, obligations, timeout, workers=16, twins=True, twin_timeout=40):
                    twin=(tw or {}).get("verdict"))
         if r["verdict"] == "confirmed":
             if tw is not None and tw["verdict"] == "confirmed":
-                res.update(status="inconclusive", reason="VACUOUS: the reachability twin (post: False) was confirmed", harness_error=True)
+                res.update(status="inconclusive", reason="VACUOUS: the reachability twin (post: False) was confirmed", harness_error=True, fatal=True)
             elif tw is not None and tw["verdict"] != "error":
                 res.update(status="discharged", reason="twin not refuted within its budget (%s); main run confirmed over all paths, which CrossHair reports only after at least one path returned" % tw["verdict"])
             else:
